@@ -257,6 +257,12 @@ def shapes(tier, contexts=('assign', 'component'), size_types=()):
             if k2 in ser[:2] and (thorough or k1 in ser[:2]):
                 for e1 in (False, True):
                     out.append(Shape([ESet([mk_elem(k1)], [], e1), ESet([mk_elem(k2)], [], True)], ctx))
+        # the marker on a LAST constraint that has no finite bound of its own (`(0..10) (MIN..MAX, ...)`): the bounds come from the
+        # parent, the extensibility from the last constraint
+        for k1 in (ser if thorough else ser[:2]):
+            for k2 in (('range', 'MIN', 'MAX'), ('range', 'MIN', 'hi'), ('range', 'lo', 'MAX')):
+                out.append(Shape([ESet([mk_elem(k1)], [], False), ESet([mk_elem(k2)], [], True)], ctx))
+        out.append(Shape([ESet([mk_elem(('range', 'lo', 'hi'))], [], False), ESet([mk_elem(('range', 'MIN', 'MAX'))], [], False)], ctx))
         if thorough:
             for k1 in ser[:2]:
                 out.append(Shape([ESet([mk_elem(k1), mk_elem(('range', 'lo', 'hi'))], ['|'], False), ESet([mk_elem(('range', 'lo', 'hi'))], [], True)], ctx))
